@@ -611,6 +611,14 @@ def alter_code(
     return source
 
 
+def _shares_call_parentheses(node: ast.AST, rng: core.Range, source: str) -> bool:
+    """f(x for x in y): the range of the generator includes the parentheses of the call."""
+    previous_character = source[rng.start - 1 : rng.start]
+    return isinstance(node, ast.GeneratorExp) and (
+        previous_character.isalnum() or previous_character in ("_", ")", "]")
+    )
+
+
 def _get_charnos(obj: _Rewrite, source: str) -> core.Range:
     old, new = obj
     if isinstance(old, core.Range):
@@ -645,7 +653,14 @@ def _schedule_rewrites(
             raise ValueError(f"Invalid tuple: {tup!r}")
 
         if isinstance(before, ast.AST):
+            node = before
             before = core.get_charnos(before, source)
+            if (
+                isinstance(after, ast.AST)
+                and not isinstance(after, ast.GeneratorExp)
+                and _shares_call_parentheses(node, before, source)
+            ):
+                after = f"({core.unparse(after)})"
         elif before is None:
             before = core.get_charnos(after, source)
 
@@ -894,6 +909,8 @@ def find_replace(
         replacement_range = core.Range(range_start, range_end)
 
         template_replacement = core.format_template(replace, combined_match, **callables)
+        if len(matches) == 1 and _shares_call_parentheses(matches[0][0], replacement_range, source):
+            template_replacement = f"({template_replacement})"
 
         indentation = formatting.indentation_level(source[range_start:range_end])
 
